@@ -88,6 +88,14 @@ type c40Cfg struct {
 	Age  bool  // sample_age_limit = 2s, plus one always-too-old and one borderline sample per batch
 	Tie  int32 // order of fake timers expiring at the same instant: 0 armed-first-first, 1 armed-last-first
 	Wal  bool  // fed by a real Head + WAL + wlog.Watcher (set by the driver)
+	Cap  int   // queue capacity (0 = 2: one full batch may wait in a shard's channel; 4: two)
+	// Gate adds the events H/U (set by the driver): H = every goroutine that is about to take a
+	// shard queue's batchMtx is held up at that point (the harness holds the mutex from the root
+	// goroutine), U = they go on (in an order fixed by the order in which they got there; both
+	// arrival orders are explored: [H T1 A U] and [H A T1 U]). This makes "the BatchSendDeadline timer fired and runShard committed to its timer arm" and "the
+	// watcher appends (fills a batch, publishes it, starts the next)" two events that are ordered
+	// by the explorer instead of by the runtime.
+	Gate bool
 	// Menu restricts the event menu (nil = everything).
 	Menu []string
 }
@@ -101,6 +109,9 @@ func c40Configs() map[string]c40Cfg {
 		// same-instant timers fire in the opposite order
 		"v1~lifo":     {Name: "v1~lifo", Tie: 1},
 		"v2+age~lifo": {Name: "v2+age~lifo", V2: true, Age: true, Tie: 1},
+		// two full batches may wait in a shard's channel besides the partial batch
+		"v1+cap4": {Name: "v1+cap4", Cap: 4},
+		"v2+cap4": {Name: "v2+cap4", V2: true, Cap: 4},
 	}
 }
 
@@ -244,6 +255,8 @@ type c40World struct {
 	fail      *vx.Fail
 	sigs      map[string]bool // every oracle complaint so far (fail keeps the first)
 	hist      []string
+	gate      []*queue // shard queues whose batchMtx the harness holds (event H .. event U)
+	gateSlept bool     // the clock was advanced during this hold
 }
 
 func (w *c40World) clk() int64 { return int64(time.Since(w.start) / time.Millisecond) }
@@ -274,6 +287,9 @@ func c40NewWorld(cfg c40Cfg, mkFeed func(w *c40World) c40Feeder) *c40World {
 	}
 	qc := config.DefaultQueueConfig
 	qc.Capacity = 2
+	if cfg.Cap > 0 {
+		qc.Capacity = cfg.Cap
+	}
 	qc.MaxSamplesPerSend = 2
 	qc.MinShards = 1
 	qc.MaxShards = 3
@@ -726,7 +742,9 @@ func (w *c40World) implSummary() string {
 	}
 	fmt.Fprintf(&sb, "shards:%d soft=%v", len(s.queues), soft)
 	for _, q := range s.queues {
-		if q.batchMtx.TryLock() {
+		if w.gated(q) {
+			fmt.Fprintf(&sb, " [held %d+%d]", len(q.batchQueue), len(q.batch))
+		} else if q.batchMtx.TryLock() {
 			fmt.Fprintf(&sb, " [%d+%d]", len(q.batchQueue), len(q.batch))
 			q.batchMtx.Unlock()
 		} else {
@@ -734,6 +752,40 @@ func (w *c40World) implSummary() string {
 		}
 	}
 	return sb.String()
+}
+
+func (w *c40World) gated(q *queue) bool {
+	for _, g := range w.gate {
+		if g == q {
+			return true
+		}
+	}
+	return false
+}
+
+// hold (w.mu held) takes the batchMtx of every shard queue. At a quiescent point nobody holds one
+// (they are never held across a blocking operation).
+func (w *c40World) hold() {
+	s := w.m.shards
+	if !s.mtx.TryRLock() {
+		w.logf("hold skipped")
+		return
+	}
+	defer s.mtx.RUnlock()
+	for _, q := range s.queues {
+		if q.batchMtx.TryLock() {
+			w.gate = append(w.gate, q)
+		}
+	}
+	w.gateSlept = false
+}
+
+// release (w.mu held) lets everybody who waits for a held batchMtx go on.
+func (w *c40World) release() {
+	for _, q := range w.gate {
+		q.batchMtx.Unlock()
+	}
+	w.gate = nil
 }
 
 // liveShards returns the number of running shards, or -1 while a stop/reshard is in progress.
@@ -783,6 +835,26 @@ func (w *c40World) Ops() []string {
 		}
 	}
 	live := w.liveShards()
+	if len(w.gate) > 0 {
+		// While the queues are held only the two things whose order is in question (the next WAL
+		// batch, the clock reaching the batch send deadline) and endpoint answers may happen:
+		// a stop/reshard would run into its flush deadline because of the harness.
+		if !w.stopAsked && w.submitted < c40MaxBatches {
+			add("A")
+		}
+		if len(w.pending) > 0 {
+			add("ok")
+			add("rec")
+		}
+		if !w.gateSlept {
+			add("T1")
+		}
+		ops = append(ops, "U")
+		return ops
+	}
+	if w.cfg.Gate && !w.stopAsked && live > 0 {
+		add("H")
+	}
 	if !w.stopAsked && w.submitted < c40MaxBatches {
 		add("A")
 	}
@@ -895,9 +967,14 @@ func (w *c40World) Apply(op string) {
 			w.answer(w.pending[len(w.pending)-1], c40AnsOK)
 		}
 	case op == "T1" || op == "T2" || op == "T3":
+		w.gateSlept = true
 		w.mu.Unlock()
 		w.sleep(map[string]time.Duration{"T1": c40T1, "T2": c40T2, "T3": c40T3}[op])
 		return
+	case op == "H":
+		w.hold()
+	case op == "U":
+		w.release()
 	case strings.HasPrefix(op, "R"):
 		n := int(op[1] - '0')
 		// exactly what updateShardsLoop does once shouldReshard agreed
@@ -977,6 +1054,13 @@ func (w *c40World) Obs() string {
 // until the feeder is idle, then the queue manager is stopped (which flushes).
 func (w *c40World) drain() {
 	w.mu.Lock()
+	if len(w.gate) > 0 {
+		w.logf("release")
+		w.release()
+		w.mu.Unlock()
+		synctest.Wait()
+		w.mu.Lock()
+	}
 	w.auto = true
 	w.logf("drain")
 	for len(w.pending) > 0 {
